@@ -156,4 +156,18 @@ theorem C03_source_skeletons_5 :
     Gen.Skel.SHMNode_Open = Expected.Skel.SHMNode_Open :=
   ⟨rfl, rfl, rfl, rfl, rfl, rfl⟩
 
+/-- A checkpoint copies before it truncates — facts proved by `decide` about the skeleton of
+    `CheckpointNoLock` regenerated from db.go: the WAL's page offsets are read first, pages are
+    written to the database before it is truncated to the commit size, the WAL is truncated after
+    both, and the shared-memory header is rewritten last. -/
+theorem C03_checkpoint_copies_before_truncating_the_wal :
+    let ix (sk : List (String × String)) (x : String × String) (d : Nat) := (sk.findIdx? (· == x)).getD d
+    let t := Gen.Skel.DB_CheckpointNoLock
+    ix t ("call", "db.readWALPageOffsets") 1000 < ix t ("call", "db.writeDatabasePage") 0 ∧
+    ix t ("call", "db.writeDatabasePage") 1000 < ix t ("call", "db.truncateDatabase") 0 ∧
+    ix t ("call", "db.truncateDatabase") 1000 < ix t ("call", "db.TruncateWAL") 0 ∧
+    ix t ("call", "db.TruncateWAL") 1000 < ix t ("call", "db.updateSHM") 0 ∧
+    (t.filter (· == ("call", "db.TruncateWAL"))).length = 1 := by
+  decide
+
 end LiteFSVerif.C03
